@@ -120,7 +120,9 @@ def handleBuilder (ws : List String) : String :=
       let tyOf := fun l => match locals.find? (·.1 = l) with | some p => p.2 | none => "?"
       let (decls, lmap) := emitLocals args tyOf used
       let maps : IdMaps := { funcs := parsePairs (dropStr fs 1), globals := parsePairs (dropStr gs 1),
-                             types := parsePairs (dropStr ys 1), locals := lmap }
+                             types := parsePairs (dropStr ys 1), locals := lmap,
+                             -- memories are created in order and none is deleted: id = index
+                             identity := ["m"] }
       match emitBody maps ar e with
       | none => "panic"
       | some out =>
